@@ -127,6 +127,12 @@ def args_digest(cases):
     return solo.digest(cases)
 
 
+def _stable(case):
+    from .. import engine
+    o = engine.observe_text(case)
+    return o if qa.row_in_model({"x": [o["init"], o["cands"]]}) else []
+
+
 def _rows_of(case):
     from .. import engine
     return engine.observe_text(case)["_rows"]
@@ -280,7 +286,7 @@ def run(ctx):
     from .. import engine
     pcases = [{"text": c["text"], "ts": tuple(c["ts"]), "depth": 10, "scorer": "dummy", "label": "purity", "form": "rows"} for c in pool]
     core.run_stage(ctx, "application-purity", pcases, _rows_of, "RulesTrace", sig_keys=("text",), nontrivial=lambda c: c["text"])
-    core.run_stage(ctx, "candidate-stability", pcases, engine.observe_text, "DeriveText", sig_keys=("text",), nontrivial=lambda c: c["text"])
+    core.run_stage(ctx, "candidate-stability", pcases, _stable, "DeriveText", sig_keys=("text",), nontrivial=lambda c: c["text"])
     clean = [{k: v for k, v in o.items() if not k.startswith("_")} for o in obs]
     v = ctx.judge("SessionsTrace", clean)
     for r in v.rejects:
